@@ -163,6 +163,11 @@ func (v *Vue) evalBoundAttribute(ctx VueContext, attrName, expr string) (any, er
 	if ok {
 		return valResolved, nil
 	}
+	// Not a path into the data: it may still be an expression without spaced
+	// operators (a literal, !flag, n>3), as accepted by v-if
+	if res, err := v.exprEval.Eval(expr, ctx.stack.EnvMap()); err == nil && res != nil {
+		return res, nil
+	}
 	return "", nil
 }
 
